@@ -29,6 +29,7 @@ C08Clauses(e) ==
 
   (IF IsAbsent(post.cur) \/ IsAbsent(post.next) \/ post.cur.id = post.next.id \/ ~e.flags.wellformed \/ ~e.flags.reload \/ ~e.flags.derEqProto
       THEN {"not-two-wellformed-selfsigned-ca-roots"} ELSE {}) \cup
+  (IF ~e.flags.labels THEN {"roots-not-labelled-current-and-next"} ELSE {}) \cup
   (IF ~\E n \in Instants(e) : post.cur.nb - tol <= n /\ n <= post.cur.na + tol THEN {"current-not-valid-now"} ELSE {}) \cup
   (IF ~\E n \in Instants(e) : TableOK(pre, post, re, n) THEN {"decision-table"} ELSE {}) \cup
   (IF (\E n \in Instants(e) : TableOK(pre, post, re, n)) /\ ~\E n \in Instants(e) : TableOK(pre, post, re, n) /\ WindowsOK(pre, post, re, n, p, tol)
